@@ -7,9 +7,9 @@ open PV PV.Model.ArpHunt PV.Drv.Accept
   line protocol (C13):  `arp.trace [scn=…] <event>@<ms> …`  → `accept` | `reject <index> <why>`
 
       Sc<k>:<mac>:<valid 0|1>        StartHunt called            Sr<k>:<e|o>   returned ErrInvalidIP / ok
-      Xc<k>:<mac>                    StopHunt called             Xr<k>
+      Xc<k>:<mac>:<ip>               StopHunt called (addr.IP)   Xr<k>
       Cc<k>                          Close called                Cr<k>
-      Qc<k>:<smac>:<toRouter 0|1>    ProcessPacket(ARP request)  Qr<k>
+      Qc<k>:<ether src>:<ARP sender>:<toRouter 0|1>   ProcessPacket(ARP request)  Qr<k>
       Bc<k>:<smac>:<offer|->:<tip>:<inLan 0|1>   ProcessPacket(ARP probe)   Br<k>
       Oc<k>                          ProcessPacket(other ARP)    Or<k>
       F<mac>   forged announcement written      T<mac>   restoring request written
@@ -23,9 +23,9 @@ def minCycleMs : Nat := 5800
 
 inductive Op where
   | start (mac : Bytes) (valid : Bool)
-  | stop (mac : Bytes)
+  | stop (mac : Bytes) (ip : Bytes)
   | close
-  | req (smac : Bytes) (toRouter : Bool)
+  | req (esrc : Bytes) (smac : Bytes) (toRouter : Bool)
   | probe (smac : Bytes) (offer : Option Bytes) (tip : Bytes) (inLan : Bool)
   | other
 
@@ -50,8 +50,8 @@ def pcStr : Pc → String
   | .forge => "f" | .wait => "w" | .done => "d"
 
 def opStr : Op → String
-  | .start m _ => "start " ++ toHex m | .stop m => "stop " ++ toHex m | .close => "close"
-  | .req m _ => "request from " ++ toHex m | .probe m _ _ _ => "probe from " ++ toHex m | .other => "other"
+  | .start m _ => "start " ++ toHex m | .stop m ip => "stop " ++ toHex m ++ " ip " ++ toHex ip | .close => "close"
+  | .req e m _ => "request of ARP sender " ++ toHex m ++ " (ether src " ++ toHex e ++ ")" | .probe m _ _ _ => "probe from " ++ toHex m | .other => "other"
 
 def outStr : Option Out → String
   | none => "_"
@@ -66,9 +66,9 @@ def AState.key (a : AState) : String :=
 
 def evOf : Op → Event
   | .start m v => .startHunt m v
-  | .stop m => .stopHunt m
+  | .stop m ip => .stopHunt m ip
   | .close => .close
-  | .req m r => .rxRequest m r
+  | .req e m r => .rxRequest e m r
   | .probe m o t l => .rxProbe m o t l
   | .other => .rxOther
 
@@ -157,9 +157,9 @@ def parseObsK (tok : String) : Option ObsK :=
       let kk ← k.toNat?
       match c, args with
       | 'S', [m, v] => do let mm ← fromHex m; some (.call kk (.start mm (v == "1")))
-      | 'X', [m] => do let mm ← fromHex m; some (.call kk (.stop mm))
+      | 'X', [m, ip] => do let mm ← fromHex m; let ii ← fromHex ip; some (.call kk (.stop mm ii))
       | 'C', [] => some (.call kk .close)
-      | 'Q', [m, r] => do let mm ← fromHex m; some (.call kk (.req mm (r == "1")))
+      | 'Q', [e, m, r] => do let ee ← fromHex e; let mm ← fromHex m; some (.call kk (.req ee mm (r == "1")))
       | 'B', [m, off, tip, l] => do
         let mm ← fromHex m
         let tt ← fromHex tip
